@@ -299,12 +299,12 @@ def main(argv: List[str]) -> int:
                         if model_dir:
                             # More than one found (ambiguous)
                             log.error("More than one Modelica file found for %s", model)
-                            errors += 1
                             model_dir = None
                             break
                         model_dir = path.parent
                 if not model_dir:
                     log.error("No unique Modelica file corresponding to model %s", model)
+                    errors += 1
                 else:
                     log.info("Generating model for %s ...", model)
                     try:
